@@ -683,6 +683,24 @@ func nameTests(p *Prog, names map[string]bool) map[[3]string]int {
 				if !ok {
 					return true
 				}
+				switch lt := tv.Type.Underlying().(type) {
+				case *types.Slice, *types.Array:
+					// a list of names that is scanned (for _, n := range names { if strings.EqualFold(x, n) ... })
+					var et types.Type
+					if sl, ok := lt.(*types.Slice); ok {
+						et = sl.Elem()
+					} else {
+						et = lt.(*types.Array).Elem()
+					}
+					if b, ok := et.Underlying().(*types.Basic); ok && b.Info()&types.IsString != 0 {
+						for _, el := range cl.Elts {
+							if etv, ok := pk.TypesInfo.Types[el]; ok && etv.Value != nil && etv.Value.Kind() == constant.String && names[constant.StringVal(etv.Value)] {
+								out[[3]string{rel, "list", constant.StringVal(etv.Value)}]++
+							}
+						}
+					}
+					return true
+				}
 				if _, isMap := tv.Type.Underlying().(*types.Map); !isMap {
 					return true
 				}
@@ -920,15 +938,20 @@ func ruleWire(p *Prog, r *RuleResult) {
 			}
 			return t
 		}
-		for _, cl := range [][]string{{"<", ">="}, {"<=", ">"}} {
+		classes := [][]string{{"<", ">="}, {"<=", ">"}}
+		for ci, cl := range classes {
 			want := class(wc.Ops, cl...)
 			if want == 0 {
 				continue
 			}
 			n++
 			have := class(got, cl...)
+			// fewer comparisons of the same boundary class are a merge of duplicated code (a helper shared by encoder
+			// and decoder) unless the other class grew at the same time: then a comparison changed sides
+			other := classes[1-ci]
+			moved := have < want && class(got, other...) > class(wc.Ops, other...)
 			key := fmt.Sprintf("cmp.%s.%s#%s", wc.Pkg, wc.Name, cl[0])
-			if have >= want {
+			if have >= 1 && !moved {
 				r.ok(fmt.Sprintf("%s x%d", key, have), p.Pos(byPkg[wc.Pkg][wc.Name].Pos()))
 			} else {
 				r.fail(key, p.Pos(byPkg[wc.Pkg][wc.Name].Pos()), fmt.Sprintf("wire threshold %s.%s is compared with `%s` (or its negation `%s`) %d time(s); bitstream format 6 has %d (now used with %v): a boundary moved by one changes which layout both sides choose for inputs exactly at the threshold, so reference streams of that size no longer decode", wc.Pkg, wc.Name, cl[0], cl[1], have, want, got))
@@ -970,13 +993,22 @@ func checkNameTests(p *Prog, r *RuleResult, spec *wireSpec) int {
 		k3 := [3]string{e.Pkg, e.Kind, e.Value}
 		seenNT[k3] = true
 		key := fmt.Sprintf("nametest.%s#%s.%s", e.Pkg, e.Kind, e.Value)
-		if curNT[k3] == e.Count {
-			r.ok(fmt.Sprintf("%s x%d", key, e.Count), "-")
+		// presence, not multiplicity (a duplicated test may be merged into a helper); a name moved into a list literal
+		// that is scanned stands for a test of whatever kind the scan applies
+		if curNT[k3] >= 1 || curNT[[3]string{e.Pkg, "list", e.Value}] >= 1 {
+			r.ok(fmt.Sprintf("%s x%d", key, curNT[k3]), "-")
 		} else {
 			r.fail(key, "-", fmt.Sprintf("package %s tests a string against the codec name %q (%s) %d time(s); bitstream format 6 has %d: a variant-selection test was added, removed or changed in kind, so both sides pick a different codec flavour than the reference for some names", e.Pkg, e.Value, e.Kind, curNT[k3], e.Count))
 		}
 	}
+	frozenPV := map[[2]string]bool{}
+	for _, e := range spec.NameTests {
+		frozenPV[[2]string{e.Pkg, e.Value}] = true
+	}
 	for k3, c := range curNT {
+		if k3[1] == "list" && frozenPV[[2]string{k3[0], k3[2]}] {
+			continue
+		}
 		if !seenNT[k3] && c > 0 {
 			n++
 			r.fail(fmt.Sprintf("nametest.%s#%s.%s", k3[0], k3[1], k3[2]), "-", fmt.Sprintf("package %s now tests a string against the format-6 codec name %q (%s) %d time(s); the reference has no such test: a codec name was added to a variant-selection list", k3[0], k3[2], k3[1], c))
